@@ -23,7 +23,7 @@ RULE = ("(enumerated) every string of length <= 5 (thorough: <= 6) over the 12-s
         " A quarter of the generated cases use LONG names (20-234 characters, the file system allows 239 for <name>.task.<10 digits>) that share a long prefix and differ in a short suffix.")
 ASSUMPTIONS = ["the documented grammar is: name = [A-Za-z0-9_-]+ ; identifier = optional //, segments joined by single '/', ':' name"]
 ESSENTIAL = ["trailing_newline", "leading_space", "double_slash_inside", "empty_segment", "no_prefix", "root_package",
-             "generated_valid", "generated_mutated", "injectivity_set", "relative_dep_in_cond_file", "cli_where", "charclass_sweep", "long_names_sharing_a_prefix"]
+             "generated_valid", "generated_mutated", "injectivity_set", "relative_dep_in_cond_file", "cli_where", "charclass_sweep", "long_names_sharing_a_prefix", "relative_deps_same_names_in_several_files"]
 EXHAUSTIVE = {"quick": "all strings of length <= 5 over the 12-symbol alphabet (271,453 strings x 4 entry points)",
               "thorough": "all strings of length <= 6 over the 12-symbol alphabet (3,257,437 strings x 4 entry points)"}
 TECHNIQUE = "exhaustive small-scope enumeration of strings against a hand-written recogniser + Hypothesis-generated long identifiers, round-trip and injectivity checks"
@@ -223,7 +223,22 @@ def _long_names(draw, n):
 
 @st.composite
 def _gen_case(draw, tier):
-    kind = draw(st.sampled_from(["mutated", "mutated", "valid", "inject", "cond", "cli"]))
+    kind = draw(st.sampled_from(["mutated", "mutated", "valid", "inject", "cond", "cli", "cond2"]))
+    if kind == "cond2":
+        # two (or three) COND files that define the SAME task names and refer to them relatively: ':x' written in p/COND is
+        # //p:x and ':x' written in q/COND is //q:x, in whatever order the files and tasks are loaded
+        pk = draw(st.sampled_from([["p", "q"], ["", "q"], ["p/a", "p"], ["p", "q", ""]]))
+        names = ["x", "y", "z"][:draw(st.sampled_from([2, 3, 3]))]
+        nodes = [(a, b) for a in range(len(pk)) for b in range(len(names))]
+        deps = {}
+        for k, (a, b) in enumerate(nodes):
+            later = nodes[k + 1:]
+            mask = draw(st.sampled_from(range(1 << len(later)))) & draw(st.sampled_from(range(1 << len(later))))
+            ds = [later[i] for i in range(len(later)) if (mask >> i) & 1][:3]
+            if len(ds) > 1:
+                ds = list(draw(st.permutations(ds)))
+            deps["%d,%d" % (a, b)] = [[d[0], d[1], draw(st.sampled_from(["rel", "rel", "abs"]))] for d in ds]
+        return {"kind": "cond2", "pkgs": pk, "names": names, "deps": deps, "s": ""}
     long_mode = draw(st.sampled_from([False, False, False, True]))
     segs = draw(st.lists(_name, min_size=0, max_size=5))
     name = draw(_long_names(1))[0] if long_mode else draw(_name)
@@ -259,6 +274,56 @@ def _gen_case(draw, tier):
         case["pkg"] = "/".join(draw(st.lists(_name, min_size=0, max_size=3)))
         case["names"] = draw(_long_names(3)) if long_mode else draw(st.lists(_name, min_size=2, max_size=3, unique=True))
     return case
+
+
+def run_cond2(case):
+    from conductor.parsing.task_index import TaskIndex
+    from conductor.errors import ConductorError
+    TI, _ = _api()
+    pk, names = case["pkgs"], case["names"]
+    root = projgen.new_scratch("c20b")
+    v = []
+    try:
+        with open(os.path.join(root, "cond_config.toml"), "w") as f:
+            f.write("disable_git = true\n")
+        want = {}
+        for a, pkg in enumerate(pk):
+            d = os.path.join(root, pkg) if pkg else root
+            os.makedirs(d, exist_ok=True)
+            lines = []
+            for b, nm in enumerate(names):
+                ds, res = [], []
+                for (a2, b2, form) in case["deps"]["%d,%d" % (a, b)]:
+                    tgt = "//%s:%s" % (pk[a2], names[b2])
+                    ds.append(":" + names[b2] if form == "rel" and a2 == a else tgt)
+                    res.append(tgt)
+                want["//%s:%s" % (pkg, nm)] = res
+                lines.append("run_command(name=%r, run='true', deps=%r)\n" % (nm, ds))
+            with open(os.path.join(d, "COND"), "w") as f:
+                f.writelines(lines)
+        target = "//%s:%s" % (pk[0], names[0])
+        ti = TaskIndex(pathlib.Path(root))
+        try:
+            ti.load_transitive_closure(TI.from_str(target))
+        except ConductorError as ex:
+            v.append(("relative_resolution", "loading %s failed although every ':name' names a task of its own COND file: %s: %s" % (
+                target, type(ex).__name__, ex.printable_message()[:160])))
+            return Outcome(v, ["relative_deps_same_names_in_several_files"], True, {"pkgs": pk, "deps": case["deps"]})
+        # every task of the closure: its dependencies are the ones of ITS OWN file
+        seen, stack = set(), [target]
+        while stack:
+            t = stack.pop()
+            if t in seen:
+                continue
+            seen.add(t)
+            got = [str(d) for d in ti.get_task(TI.from_str(t)).deps]
+            if got != want[t]:
+                v.append(("relative_resolution", "%s lists %s, which resolved to %s" % (t, want[t], got)))
+                break
+            stack.extend(want[t])
+        return Outcome(v, ["relative_deps_same_names_in_several_files"], len(seen) >= 3, {"pkgs": pk, "loaded": sorted(seen)})
+    finally:
+        projgen.rm(root)
 
 
 def strategy(tier):
@@ -305,6 +370,8 @@ def run_case(case):
         if any(len(s) > 100 for s, _ in case["pairs"]):
             labels.append("long_names_sharing_a_prefix")
         return Outcome(v, labels, len(dirs) >= 2, {"pairs": case["pairs"]})
+    if kind == "cond2":
+        return run_cond2(case)
     # COND-level: ':name' resolves against the directory of the COND file that lists it
     root = projgen.new_scratch("c20")
     try:
